@@ -31,10 +31,12 @@ def s(fr):
     return str(fr.numerator) if fr.denominator == 1 else repr(float(fr))
 
 
-def par(align, mos):
+def par(align, mos, k=0):
+    """preserveAspectRatio = [wsp] align [wsp+ meetOrSlice] [wsp]: white space around and between the two words varies"""
+    v = k % 4
     if mos == "":
-        return align
-    return align + " " + mos
+        return (align, " " + align, align + " ", align)[v]
+    return (align + " " + mos, align + "  " + mos, " " + align + " " + mos + " ", align + "\t" + mos)[v]
 
 
 def cmp_matrix(m, exp, what, scale_ref):
@@ -83,7 +85,7 @@ def check_image(shape, e, vb, exp, what):
 def check_case(case):
     kind, e, vb, align, mos, exp, k = case["kind"], case["e"], case["vb"], case["align"], case["mos"], case["exp"], case["n"] + case["seed"]
     dis = []
-    aspect = par(align, mos)
+    aspect = par(align, mos, k)
     ex, ey, ew, eh = [rat(x) for x in e]
     if kind == "normal":
         vbx, vby, vbw, vbh = [rat(x) for x in vb]
